@@ -8,7 +8,7 @@ Driver for property C19: `kitdrv C19` reads one request per line, answers one li
   a real execution are run through the τ-closed state-set simulation (`Kit.Spiffe.accept`).
   Events: `cr` `cy` `cg` `cgp` `cr2` `park:i` `rel:i` `cx:i` `req:k` `rep:0|1`
   `ret:i:ok|ctx|e|s<k>` `rret:err` `q:i+j+…`.  Answer: `accept` or `reject k=<index> ev=<event> …`.
-* `renew dir=0|1 anch=<n> t0=<ns> script=<o:nb:na|f|a:nb:na>,… steps=<a:ns|t:n>,…` — runs the renewal
+* `renew dir=0|1 anch=<n> t0=<ns> script=<o:nb:na|f|a:nb:na>,… steps=<a:ns|t:n|w|ans>,…` — runs the renewal
   automaton; answer: requests, served token after each step, armed timers, published file sets.
 -/
 namespace Driver.C19
@@ -77,6 +77,7 @@ def parseAct (w : String) : Option Act :=
   | ["a", d] => d.toInt?.map .adv
   | ["t", n] => n.toNat?.map .anchors
   | ["w"] => some .toWake
+  | ["ans"] => some .answer
   | _ => none
 
 def showObs (s : RN) : String × String :=
@@ -96,12 +97,13 @@ def doRenew (l : Line) : String :=
     let sts := runActs s0 acts
     let sN := sts.getLast?.getD s0
     let obs := (s0 :: sts).map showObs
-    let reqs := ",".intercalate (sN.log.reverse.map fun r => s!"{r.stamp}:{if r.good then 1 else 0}")
+    let answered := sN.log.reverse.map fun r => s!"{r.stamp}:{if r.good then 1 else 0}:{r.answered}"
+    let reqs := ",".intercalate (answered ++ (if sN.mode == .inflight then [s!"{sN.reqAt}:p"] else []))
     let timers := ",".intercalate (sN.timers.reverse.map fun t => s!"{t.1}:{t.2}")
     let served := ",".intercalate (obs.map (·.1))
     let pub := ",".intercalate (obs.map (·.2))
     let writes := ",".intercalate (sN.pub.reverse.map fun f => s!"{f.key}/{f.chain}/{f.anchors}")
-    let mode := match sN.mode with | .waiting => "waiting" | .retrying => "retrying" | .dead => "dead"
+    let mode := match sN.mode with | .waiting => "waiting" | .retrying => "retrying" | .inflight => "inflight" | .dead => "dead"
     s!"reqs={reqs};served={served};timers={timers};pub={pub};writes={writes};mode={mode}"
   | _, _ => "error bad-script"
 
